@@ -542,6 +542,79 @@ func rawNextInvoke(id string, seed uint64) runner.Result {
 	return wireVerdict(id, hist, rg, true)
 }
 
+// longHistory: nothing concurrent, just long: tens of thousands of messages on one stream in each
+// direction, or tens of thousands of unary RPCs on one connection, so that message ids and stream ids
+// grow through the sizes at which their encoding changes length. The wire is judged as everywhere else.
+func longHistory(id string, seed uint64, what string, n int) runner.Result {
+	r := &payload.SplitMix{S: seed}
+	cfg := prog.GenConfig(r, false)
+	cfg.Net.Cap = -1
+	cfg.Client.Stream.ManualFlush, cfg.Server.Stream.ManualFlush = false, false
+	handler := rig.HandlerFunc(func(stream drpc.Stream, rpc string) error {
+		var m []byte
+		if rpc == "/unary" {
+			if err := stream.MsgRecv(&m, payload.Enc{}); err != nil {
+				return err
+			}
+			return stream.MsgSend(&m, payload.Enc{})
+		}
+		k := 0
+		for stream.MsgRecv(&m, payload.Enc{}) == nil {
+			k++
+		}
+		for i := 0; i < k; i++ {
+			out := []byte{byte(i)}
+			if err := stream.MsgSend(&out, payload.Enc{}); err != nil {
+				return err
+			}
+		}
+		return nil
+	})
+	rg := rig.New(rig.Config{Net: cfg.Net, Client: cfg.Client, Server: cfg.Server}, handler)
+	defer rg.Teardown()
+	hist := fmt.Sprintf("%s | long history: %d %s", cfg.Desc, n, what)
+	op := rig.Go("long", func() (interface{}, error) {
+		if what == "unary RPCs on one connection" {
+			for i := 0; i < n; i++ {
+				in := []byte{byte(i), byte(i >> 8)}
+				var out []byte
+				if err := rg.Conn.Invoke(context.Background(), "/unary", payload.Enc{}, &in, &out); err != nil {
+					return nil, fmt.Errorf("rpc #%d: %w", i+1, err)
+				}
+			}
+			return nil, nil
+		}
+		st, err := rg.Conn.NewStream(context.Background(), "/stream", payload.Enc{})
+		if err != nil {
+			return nil, err
+		}
+		defer st.Close()
+		for i := 0; i < n; i++ {
+			m := []byte{byte(i)}
+			if err := st.MsgSend(&m, payload.Enc{}); err != nil {
+				return nil, fmt.Errorf("send #%d: %w", i+1, err)
+			}
+		}
+		if err := st.CloseSend(); err != nil {
+			return nil, err
+		}
+		for i := 0; i < n; i++ {
+			var m []byte
+			if err := st.MsgRecv(&m, payload.Enc{}); err != nil {
+				return nil, fmt.Errorf("receive #%d: %w", i+1, err)
+			}
+		}
+		return nil, nil
+	})
+	if !op.Wait() {
+		hist += " (the workload did not finish)"
+	} else if op.Err != nil {
+		hist += " (the workload ended with " + rig.ErrStr(op.Err) + ")"
+	}
+	census.Quiesce(rig.Watchdog)
+	return wireVerdict(id, hist, rg, true)
+}
+
 func drpcAppend(dst []byte, sid, mid uint64, kind uint8, data []byte) []byte {
 	return refwire.Encode(dst, refwire.Frame{Stream: sid, Message: mid, Kind: kind, Done: true, Data: data})
 }
@@ -552,6 +625,19 @@ func gen(tier string, seed uint64) []runner.Scenario {
 		n = 20000
 	}
 	var out []runner.Scenario
+	longs := []struct {
+		what string
+		n    int
+	}{{"messages each way on one stream", 33500}, {"unary RPCs on one connection", 17000}}
+	if tier == "thorough" {
+		longs = append(longs, longs[0], longs[1])
+		longs[2].n, longs[3].n = 140000, 70000
+	}
+	for i, l := range longs {
+		i, l := i, l
+		id := fmt.Sprintf("long-history/%s/%d", strings.Fields(l.what)[0], l.n)
+		out = append(out, runner.Scenario{ID: id, Run: func() runner.Result { return longHistory(id, payload.Hash(seed, 0xC074, uint64(i)), l.what, l.n) }})
+	}
 	for i := 0; i < n; i++ {
 		i := i
 		id := fmt.Sprintf("storm/%d", i)
@@ -572,7 +658,7 @@ func main() {
 	runner.Main(runner.Check{
 		Property: "C07",
 		Level:    "exploration",
-		Rule:     "three families. (storm) one case = one storm on one connection: 2-5 RPCs; in each streaming RPC 2-5 client goroutines issue 1-5 of MsgSend (boundary sizes, multi-frame), CloseSend, Close, RawFlush, context cancel, MsgRecv on the shared stream; the handler runs 0-2 sender goroutines plus a reader and returns nil or an error, one time in four while its senders are still in flight; about one in seven of the first 60 writes of each endpoint is parked (before or after delivering its bytes) and released one at a time at quiescence; seeded configuration cell, both cancel modes, perturbed scheduling in half of the cases. (parked-terminal) a client send parked inside the transport, a concurrent Close/CloseSend/SendError parked at one of its three internal points, the server ending the RPC remotely, further RPCs started, then write and call released in turn. (raw-next-invoke) a manager-level server handling each stream in its own goroutine, a raw peer moving to the next stream without closing the previous while the reply is parked in the transport and the terminal call is parked. Non-trivial: more than 4 transport writes observed. Distinct: by configuration and storm seed (program text is determined by the seed).",
+		Rule:     "four families. (long-history) 33500 (thorough: 140000) one-byte messages each way on one stream, and 17000 (thorough: 70000) unary RPCs on one connection, sequentially: message and stream ids grow through the values at which their encoding changes length. (storm) one case = one storm on one connection: 2-5 RPCs; in each streaming RPC 2-5 client goroutines issue 1-5 of MsgSend (boundary sizes, multi-frame), CloseSend, Close, RawFlush, context cancel, MsgRecv on the shared stream; the handler runs 0-2 sender goroutines plus a reader and returns nil or an error, one time in four while its senders are still in flight; about one in seven of the first 60 writes of each endpoint is parked (before or after delivering its bytes) and released one at a time at quiescence; seeded configuration cell, both cancel modes, perturbed scheduling in half of the cases. (parked-terminal) a client send parked inside the transport, a concurrent Close/CloseSend/SendError parked at one of its three internal points, the server ending the RPC remotely, further RPCs started, then write and call released in turn. (raw-next-invoke) a manager-level server handling each stream in its own goroutine, a raw peer moving to the next stream without closing the previous while the reply is parked in the transport and the terminal call is parked. Non-trivial: more than 4 transport writes observed. Distinct: by configuration and storm seed (program text is determined by the seed).",
 		Assumptions: []string{
 			"the monitor reads the transport tap only; nothing about delivery is asserted here",
 			"a storm that cannot finish (application-level flow-control deadlock) is still judged on the bytes it wrote",
